@@ -270,6 +270,7 @@ func TestC09_ForClauses(t *testing.T) {
 
 type anyGen struct {
 	names []string // data names
+	hot   string   // the variable of the enclosing @each: used often in its body, so that one place sees values of several kinds
 }
 
 func (g *anyGen) expr(rt *rapid.T, depth int) *tw.Expr {
@@ -316,6 +317,9 @@ func (g *anyGen) expr(rt *rapid.T, depth int) *tw.Expr {
 }
 
 func (g *anyGen) leaf(rt *rapid.T) *tw.Expr {
+	if g.hot != "" && rapid.IntRange(0, 2).Draw(rt, "loopVar") == 0 {
+		return tw.Var(g.hot)
+	}
 	switch rapid.IntRange(0, 9).Draw(rt, "leafForm") {
 	case 0, 1:
 		return intLit(rapid.SampledFrom([]int64{0, 1, -1, 2, 3, 5, 1000, 999999, 1 << 31, 9223372036854775807, -9223372036854775808, -5}).Draw(rt, "int"))
@@ -344,7 +348,7 @@ func (g *anyGen) stmts(rt *rapid.T, depth int) []*tw.Stmt {
 	n := rapid.IntRange(0, 4).Draw(rt, "nstmts")
 	var out []*tw.Stmt
 	for i := 0; i < n; i++ {
-		k := rapid.IntRange(0, 16).Draw(rt, "stmtKind")
+		k := rapid.IntRange(0, 17).Draw(rt, "stmtKind")
 		if depth <= 0 && k >= 6 && k <= 9 {
 			k = 1
 		}
@@ -366,7 +370,20 @@ func (g *anyGen) stmts(rt *rapid.T, depth int) []*tw.Stmt {
 			}
 			out = append(out, st)
 		case 8:
-			st := &tw.Stmt{Kind: tw.SEach, Name: rapid.SampledFrom([]string{"x", "v", "loop"}).Draw(rt, "ev"), E: e(), Body: g.stmts(rt, depth-1)}
+			st := &tw.Stmt{Kind: tw.SEach, Name: rapid.SampledFrom([]string{"x", "v", "loop"}).Draw(rt, "ev"), E: e()}
+			if rapid.IntRange(0, 3).Draw(rt, "mixedArray") == 0 {
+				// elements of different kinds: what the body does to the loop variable meets each of them in turn
+				n := rapid.IntRange(2, 4).Draw(rt, "nMixed")
+				el := make([]*tw.Expr, n)
+				for j := range el {
+					el[j] = g.expr(rt, rapid.IntRange(0, 1).Draw(rt, "mixedDepth"))
+				}
+				st.E = tw.Arr(el...)
+			}
+			hot := g.hot
+			g.hot = st.Name
+			st.Body = g.stmts(rt, depth-1)
+			g.hot = hot
 			if rapid.Bool().Draw(rt, "else") {
 				st.HasElse, st.Else = true, g.stmts(rt, depth-1)
 			}
@@ -388,6 +405,43 @@ func (g *anyGen) stmts(rt *rapid.T, depth int) []*tw.Stmt {
 			out = append(out, &tw.Stmt{Kind: tw.SComponent, Name: "comp", Arg: tw.Obj([]string{"a"}, []*tw.Expr{e()})}, tw.Text("."))
 		case 15:
 			out = append(out, &tw.Stmt{Kind: tw.SUse, Name: "~lay"})
+		case 17:
+			// one small site - a call, an index, a property, an operator - that meets values of
+			// several kinds in the passes of one loop, with little else in the body that could fail first
+			n := rapid.IntRange(2, 4).Draw(rt, "nMixed")
+			el := make([]*tw.Expr, n)
+			for j := range el {
+				el[j] = rapid.SampledFrom([]*tw.Expr{tw.Str("ab"), intLit(-7), floatLit(2.5), tw.Bool(true), tw.Arr(intLit(1), intLit(2)), tw.Arr(tw.Str("x")), tw.Obj([]string{"a"}, []*tw.Expr{intLit(1)}), tw.Str(""), intLit(0), tw.Nil(), tw.Arr()}).Draw(rt, "mixedEl")
+			}
+			// (a loop variable keeps its kind, so the values come wrapped: v[0], v.a, or [..][q] in a @for)
+			form := rapid.IntRange(0, 2).Draw(rt, "mixedLoopForm")
+			var v *tw.Expr
+			var loop *tw.Stmt
+			switch form {
+			case 0:
+				for j := range el {
+					el[j] = tw.Arr(el[j])
+				}
+				v = tw.Index(tw.Var("v"), intLit(0))
+				loop = &tw.Stmt{Kind: tw.SEach, Name: "v", E: tw.Arr(el...)}
+			case 1:
+				for j := range el {
+					el[j] = tw.Obj([]string{"a"}, []*tw.Expr{el[j]})
+				}
+				v = tw.Dot(tw.Var("v"), "a")
+				loop = &tw.Stmt{Kind: tw.SEach, Name: "v", E: tw.Arr(el...)}
+			default:
+				v = tw.Index(tw.Arr(el...), tw.Var("q"))
+				loop = &tw.Stmt{Kind: tw.SFor, Name: "q", Init: intLit(0), Cond: tw.Bin("<", tw.Var("q"), intLit(int64(n))), Post: tw.Un(tw.EInc, tw.Var("q"))}
+			}
+			site := rapid.SampledFrom([]*tw.Expr{
+				tw.Call(v, rapid.SampledFrom([]string{"len", "str", "reverse", "first", "last", "abs", "int", "float", "upper", "join", "then", "binary", "decimal", "raw", "trim"}).Draw(rt, "siteFn")),
+				tw.Call(v, "contains", intLit(1)), tw.Call(v, "at", intLit(0)), tw.Call(v, "slice", intLit(0)), tw.Call(v, "append", intLit(3)), tw.Call(v, "repeat", intLit(2)),
+				tw.Index(v, intLit(0)), tw.Index(v, tw.Str("a")), tw.Dot(v, "a"), tw.Bin("+", v, v), tw.Bin("*", v, v), tw.Bin("<", v, v), tw.Un(tw.ENeg, v), tw.Un(tw.EInc, v), tw.Un(tw.ENot, v),
+				tw.Tern(v, intLit(1), intLit(2)), tw.Call(tw.Index(tw.Arr(v), intLit(0)), "len"), tw.Call(tw.Tern(tw.Bool(true), v, intLit(0)), "str"),
+			}).Draw(rt, "site")
+			loop.Body = []*tw.Stmt{tw.Print(site), tw.Text(",")}
+			out = append(out, loop)
 		default:
 			out = append(out, &tw.Stmt{Kind: tw.SSlot, Name: rapid.SampledFrom([]string{"", "s"}).Draw(rt, "slot")}, tw.Text(" "))
 		}
@@ -397,7 +451,7 @@ func (g *anyGen) stmts(rt *rapid.T, depth int) []*tw.Stmt {
 
 func TestC09_RandomPrograms(t *testing.T) {
 	c := harness.New(t, "C09", "random-programs",
-		"programs from an untyped generator: any expression kind in any position (operators on any operand types, dot/index/call on any receiver, every built-in name with 0..3 arguments of any kind, array/object literals with failing entries), every statement kind in any position (control directives outside loops, @use/@reserve/@insert/@slot/@component in string mode), bounded loops, @each over any value; data maps with every kind (boundary integers, empty/non-ASCII/invalid UTF-8 strings, nil pointers at every pointer position, values of unsupported kinds nested at any depth, loop as a key). Oracle: output or error, no panic, error line within the template. Non-trivial: evaluation was reached (parse succeeded) and the program has >= 1 operator/call/index. Distinct by hash of source + data.")
+		"programs from an untyped generator: any expression kind in any position (operators on any operand types, dot/index/call on any receiver, every built-in name with 0..3 arguments of any kind, array/object literals with failing entries), every statement kind in any position (control directives outside loops, @use/@reserve/@insert/@slot/@component in string mode), bounded loops, @each over any value and over literal arrays whose elements are of different kinds with the loop variable used all over the body (one call, index or operator site meeting several kinds in one render); data maps with every kind (boundary integers, empty/non-ASCII/invalid UTF-8 strings, nil pointers at every pointer position, values of unsupported kinds nested at any depth, loop as a key). Oracle: output or error, no panic, error line within the template. Non-trivial: evaluation was reached (parse succeeded) and the program has >= 1 operator/call/index. Distinct by hash of source + data.")
 	defer c.Finish()
 	runRapid(t, c, 40000, 450000, func(rt *rapid.T) {
 		nData := rapid.IntRange(0, 5).Draw(rt, "nData")
